@@ -82,6 +82,7 @@ type RespPlan struct {
 
 	LatNs      int64  `json:"lat_ns,omitempty"`       // before the header
 	ChunkLatNs int64  `json:"chunk_lat_ns,omitempty"` // before each later wire chunk
+	HugeCL     bool   `json:"huge_cl,omitempty"`      // the header block declares Content-Length 2^47 (whatever follows is then cut short)
 	Fault      string `json:"fault,omitempty"`        // "" | "err" | "hang" | "reset" (at wire byte FaultAt) | "eof" (at wire byte FaultAt)
 	FaultAt    int    `json:"fault_at,omitempty"`
 
